@@ -120,6 +120,8 @@ def fragment_reject_reason(src: str, tree: ast.AST) -> str | None:
             elif isinstance(op, (ast.Attribute, ast.Subscript)):
                 subj = [op]
             for s in subj:
+                if isinstance(s, ast.Subscript) and isinstance(s.slice, ast.Slice):
+                    continue   # a slice creates a new object: nothing persistent is narrowed
                 if isinstance(s, (ast.Attribute, ast.Subscript)):
                     return "narrowing-on-attribute-or-item:" + ast.unparse(op)[:80]
     return None
